@@ -46,6 +46,23 @@ CHECKS.update({
     ),
 })
 
+CHECKS.update({
+    "C06": (
+        "BC",
+        "model-based stateful property testing: Hypothesis-drawn operation/schedule sequences on the real _KafkaBrokerClient and KafkaBootstrapProtocol over a simulated transport, compared step by step with a reference model of the request table; ddmin-shrunk JSON traces",
+        "Search over request/cancel/reply-order/chunking/drop/close histories; after every step the state and value of every request Deferred must equal the model's, and at the end each must have fired exactly once. Exploration of thousands of histories per run, not exhaustive.",
+        "The scheduler's event granularity (frame chunks, connect resolution, connectionLost as separate events) is the interleaving space; the model identifies responses by correlation id as the property does.",
+        "DESIGN.md 3/C06",
+    ),
+    "C10": (
+        "BC",
+        "model-based stateful property testing with fault injection at every event boundary: the reference model predicts the exact frames written per step and the time/address of every connection attempt under a generated retry policy",
+        "Search over drop points (before/between/inside frames, while connecting, during backoff), refusal runs, cancellations, new requests and close; writes and attempts must match the model in every step.",
+        "Assumes writes/attempts happen synchronously with their trigger, as the broker client does today.",
+        "DESIGN.md 3/C10",
+    ),
+})
+
 NOT_YET = {
 }
 
@@ -86,6 +103,7 @@ def main():
             "add_only": True,
         },
         "engines": [
+            {"name": "BC", "path": "vlib/engines/bc.py", "serves_properties": ["C06", "C10"], "kind_free_text": "real _KafkaBrokerClient / KafkaBootstrapProtocol on simulated time and transports (vlib/simnet.py) against a scripted peer, with a reference model of the request table; traces are JSON and replay without Hypothesis"},
             {"name": "structured", "path": "checks/", "serves_properties": ["C04", "C05", "C12", "C15", "C18"], "kind_free_text": "Hypothesis @given over composite strategies with an independent protocol implementation (vlib/refproto) or foreign implementation (JVM) as oracle"},
         ],
         "checks": checks,
